@@ -427,6 +427,16 @@ class Engine:
     # ------------------------------------------------------------ expressions
     def ev(self, node: ast.AST, st: State) -> V:
         self._cur_state = st
+        ghost = (self.c.path_hints or {}).get("ghost_exprs") if not self.spec_mode else None
+        if ghost and isinstance(node, (ast.GeneratorExp, ast.ListComp, ast.Call, ast.Subscript, ast.Attribute)):
+            # an expression outside the subset is replaced by a declared ghost parameter (its value is
+            # unconstrained: the obligations then hold whatever the expression evaluates to)
+            txt = ast.unparse(node)
+            if txt in ghost:
+                note = f"expression `{txt[:60]}` abstracted by ghost parameter `{ghost[txt]}`"
+                if note not in self.dropped:
+                    self.dropped.append(note)
+                return st.env[ghost[txt]]
         m = getattr(self, "ev_" + type(node).__name__, None)
         if m is None:
             raise Unsupported(f"expression {type(node).__name__} at L{getattr(node, 'lineno', '?')}")
@@ -463,6 +473,7 @@ class Engine:
         n = node.id
         if n in st.env: return st.env[n]
         if n in ("True", "False"): return VBool(n == "True")
+        if n == "Nothing": return VNone()          # returns.maybe.Nothing modelled as None of an Optional
         if n in self.reg.specs: return VFunc(builtin="spec:" + n, name=n)
         if n in BUILTINS: return VFunc(builtin=n, name=n)
         if n in self.reg.records: return VClass(n)
@@ -1688,8 +1699,10 @@ class Engine:
             self.inputs[name] = v
             pc += wf_facts(v)
         missing = [a for a in argnames if a not in env]
-        if missing:
+        if missing and not c.fragment:
             raise Unsupported(f"parameters without declared type: {missing}")
+        if missing:
+            self.dropped.append(f"parameters {missing} are not modelled (a use inside the fragment would make it unsupported)")
         self.entry_env = dict(env)
         st = State(pc, env)
         self._cur_state = st
@@ -1773,6 +1786,18 @@ def select_fragment(fnode, frag: Dict[str, Any], eng: Engine) -> List[ast.stmt]:
                 break
             out.append(s)
         eng.dropped.append(f"fragment: statements from the first `{frag['stmt']}` on are not part of this obligation set")
+        return out
+    if rule == "from_stmt":
+        out, on = [], False
+        for s in fnode.body:
+            if not on and ast.unparse(s).startswith(frag["starts_with"]):
+                on = True
+            if on:
+                out.append(s)
+        if not out:
+            raise Unsupported(f"fragment: no top-level statement starts with `{frag['starts_with']}`")
+        eng.dropped.append(f"fragment from_stmt: statements before `{frag['starts_with']}` (L{out[0].lineno}) are not part of "
+                           "this obligation set; the names they define are ghost parameters")
         return out
     if rule == "attr_slice":
         # keep exactly the top-level statements that store to one of the listed attributes of `self`
@@ -2040,7 +2065,13 @@ def _b_reversed(e: Engine, args, kw, st, ln):
     return VSeq("list", s.length, lambda i, s=s: e.elem(s, s.length - 1 - i), s.elt)
 
 
+def _b_some(e, args, kw, st, ln):
+    """returns.maybe.Some(x) modelled as the non-None case of an Optional (assumed library contract)"""
+    return VOpt(z3.BoolVal(False), args[0])
+
+
 BUILTINS: Dict[str, Callable] = {
+    "Some": _b_some,
     "_cnt": _b_cnt, "map": _b_map, "reversed": _b_reversed,
     "len": _b_len, "tuple": _b_tuple, "list": _b_list, "int": _b_int, "bool": _b_bool, "ord": _b_ord,
     "chr": _b_chr, "min": _b_minmax("min"), "max": _b_minmax("max"), "abs": _b_abs,
